@@ -2,9 +2,11 @@ package main
 
 import (
 	"bytes"
+	"encoding/binary"
 	"flag"
 	"fmt"
 
+	"github.com/markkurossi/mpc/ot"
 	"github.com/markkurossi/mpc/sha2pc"
 
 	"verifharness/hxlib"
@@ -255,6 +257,21 @@ func protoMode(args []string) int {
 		}
 	}
 
+	// 4b. behavioural probes of the code shape the model assumes (first session of every curve)
+	for _, ci := range curves {
+		ss := perCurve[ci.name]
+		if len(ss) == 0 {
+			continue
+		}
+		s := ss[0]
+		repairProbes(o, s, fmt.Sprintf("go run -tags verif ./cmd/c18 proto -repo %s -seed %d -n %d -tier %s", repo, cf.Seed, cf.N, cf.Tier))
+		if d := decodeReal("R3", ci, s.r3b); d.class == "ok" && hintsBothLabels(d.r3) {
+			o.Count("hints_both_labels_common_offset")
+		} else {
+			o.Count("hints_not_both_labels")
+		}
+	}
+
 	// 5. messages of another session / another curve
 	for _, ci := range curves {
 		ss := perCurve[ci.name]
@@ -322,4 +339,122 @@ func protoMode(args []string) int {
 	}
 	o.Meta["cases"] = idx
 	return 0
+}
+
+// ---------------------------------------------------------------- behavioural probes of the code shape the model assumes
+
+// hintsBothLabels observes, on the DECODED round-3 message of a real session,
+// what the model's `Round3.hints` says: every output hint carries two distinct
+// labels whose XOR is one value common to all output wires (the garbler's
+// free-XOR offset).  This is property C04's finding seen from the message; the
+// C18 model represents it as the code is.
+func hintsBothLabels(m sha2pc.Round3Payload) bool {
+	if len(m.OutputHints) == 0 {
+		return false
+	}
+	d0 := m.OutputHints[0].L0
+	d0.Xor(m.OutputHints[0].L1)
+	var zero ot.Label
+	if d0.Equal(zero) {
+		return false
+	}
+	for _, w := range m.OutputHints {
+		d := w.L0
+		d.Xor(w.L1)
+		if !d.Equal(d0) {
+			return false
+		}
+	}
+	return true
+}
+
+func flipped(b []byte, off int, mask byte) []byte {
+	c := append([]byte(nil), b...)
+	c[off] ^= mask
+	return c
+}
+
+// repairProbes runs, on one real session, the deterministic inputs that
+// distinguish the repaired code (0e7671a, 68f93f2, d9a1171, 2eb87d5, 217fb4c)
+// from the code before: each must end in an ERROR (class "err").  Counters
+// probe_<name>_<class>; any other class is an oracle failure.
+func repairProbes(o *hxlib.Out, s *session, rerun string) {
+	ci := s.ci
+	report := func(name, class, sig string, extra map[string]any) {
+		o.Count("probe_" + name + "_" + class)
+		if class != "err" {
+			extra["curve"] = ci.name
+			extra["what"] = "probe " + name
+			extra["class"] = class
+			extra["rerun"] = rerun
+			failK(o, sig, extra)
+		}
+	}
+	dec := func(name, kind string, data []byte, why string) {
+		d := decodeReal(kind, ci, data)
+		report(name, d.class, "c18-malformed-accepted", map[string]any{"decoder": kind, "kind": why,
+			"cause": lenienceCause(kind, why), "input_len": len(data), "input_hex": clip(hxlib.Hex(data), 700)})
+	}
+	// d9a1171: input left in the reader
+	dec("trailing-R1", "R1", append(append([]byte(nil), s.r1b...), 0), "trailing-bytes")
+	dec("trailing-GS", "GS", append(append([]byte(nil), s.gsb...), 0), "trailing-bytes")
+	dec("trailing-ES", "ES", append(append([]byte(nil), s.esb...), 0), "trailing-bytes")
+	reprefix := func(b []byte, delta int) []byte {
+		v, n := binary.Uvarint(b[10:])
+		out := append([]byte(nil), b[:10]...)
+		out = append(out, uvarint(uint64(int(v)+delta))...)
+		return append(out, b[10+n:]...)
+	}
+	dec("inner-trailing-GS", "GS", append(reprefix(s.gsb, 1), 0), "inner-trailing-bytes")
+	dec("inner-trailing-ES", "ES", append(reprefix(s.esb, 1), 0), "inner-trailing-bytes")
+	// 2eb87d5: chunk that ends inside the bit field
+	short := reprefix(s.esb, -1)
+	dec("short-bits-ES", "ES", short[:len(short)-1], "short-bits")
+	// 217fb4c: padded length prefix (name chunk of R1/R2, outer chunk of GS/ES)
+	pad := func(b []byte) []byte {
+		v, n := binary.Uvarint(b[10:])
+		p := uvarint(v)
+		p[len(p)-1] |= 0x80
+		p = append(p, 0)
+		out := append([]byte(nil), b[:10]...)
+		out = append(out, p...)
+		return append(out, b[10+n:]...)
+	}
+	dec("nonminimal-uvarint-R1", "R1", pad(s.r1b), "nonminimal-uvarint")
+	dec("nonminimal-uvarint-R2", "R2", pad(s.r2b), "nonminimal-uvarint")
+	dec("nonminimal-uvarint-GS", "GS", pad(s.gsb), "nonminimal-uvarint")
+	dec("nonminimal-uvarint-ES", "ES", pad(s.esb), "nonminimal-uvarint")
+	// 0e7671a / 68f93f2: a stored point that is not on the curve
+	esl := layout("ES", ci, s.esb)
+	gsl := layout("GS", ci, s.gsb)
+	for _, pr := range []struct {
+		name, kind, field string
+		base              []byte
+		fs                []field
+	}{{"offcurve-ES-A", "ES", "ax", s.esb, esl}, {"offcurve-GS-AaInv", "GS", "ainvx", s.gsb, gsl}} {
+		f := fieldBy(pr.fs, pr.field)
+		done := false
+		for bit := 0; bit < 8 && !done; bit++ {
+			d := decodeReal(pr.kind, ci, flipped(pr.base, f.off+f.len-1, 1<<uint(bit)))
+			if d.class != "ok" {
+				continue
+			}
+			off := false
+			if pr.kind == "ES" {
+				off = !onCurve(ci, d.es.ChoiceBundle.Ax, d.es.ChoiceBundle.Ay)
+			} else {
+				off = !onCurve(ci, d.gs.SenderSetup.AaInvX, d.gs.SenderSetup.AaInvY)
+			}
+			if !off {
+				continue
+			}
+			done = true
+			res, round := continueRound(pr.kind, d, s, hxlib.NewRng(7))
+			report(pr.name, res.class, "c18-round-panic", map[string]any{"decoder": pr.kind, "round": round,
+				"cause": panicCause(pr.kind, d, ci, res.msg), "panic": res.msg})
+		}
+		if !done {
+			o.Count("probe_" + pr.name + "_not-constructed")
+		}
+	}
 }
